@@ -37,7 +37,7 @@ func (cr *CheckRun) CheckJSON(entries []CorpusEntry) {
 			e := job.enc(f)
 			e.NoSafety = true
 			e.PostEncode = func() { tagJSON(e) }
-			cr.VerifyFunc(e, job.Em.Entry.Name, nil, nil)
+			cr.VerifyFunc(e, job.Em.Entry.Name, nil, func(fl *Failure) { jf.ReplayJSON(cr, job, fl) })
 		}
 		if cr.Prop == "C06" {
 			var names []string
@@ -48,7 +48,7 @@ func (cr *CheckRun) CheckJSON(entries []CorpusEntry) {
 			for _, n := range names {
 				jt := jf.Types[n]
 				if _, isStruct := jt.Named.Underlying().(*types.Struct); isStruct && jt.Schema.IsObjectLike() && jt.Problem == "" {
-					jf.RoundTripLemma(cr, jt, job.Em.Entry.Name)
+					jf.RoundTripLemma(cr, jt, job)
 				}
 			}
 		}
